@@ -1432,6 +1432,53 @@ theorem c15_parabola_cache_transparent (G : PGrid F) (Mf : Int → List F → Li
 
 end cache
 
+/-! ## The arrays of the manifold function are only read -/
+
+section store
+variable {F : Type} [Add F] [Sub F] [Mul F] [Div F] [LT F] [DecidableLT F] [RoundOps F]
+  [OfNat F 1] [OfNat F 2] [BEq F]
+
+/-- **the manifold function's arrays survive every history**: when the manifold function hands out
+the arrays of its own store (no copies), any history of calls of the linear method — hits, misses,
+raising calls — returns the store exactly as it was, and the answers are those of the pure model
+run on the look-up function of that store.  (An in-place update of a handed-out array, e.g.
+`M2 += M0 - 2.*M1`, is excluded: the code-shaped model builds every result from new arrays.) -/
+theorem c15_linear_keeps_manifold_store (G : PGrid F) (ns : List Nat) (st : Store F)
+    (cache : Option (LinCache F)) (calls : List (Int × List F)) :
+    (linRunS G ns st cache calls).1 = st ∧
+      (linRunS G ns st cache calls).2 = linRun G st.get ns cache calls := by
+  induction calls generalizing cache with
+  | nil => exact ⟨rfl, rfl⟩
+  | cons c rest ih =>
+    obtain ⟨sid, xs⟩ := c
+    obtain ⟨h1, h2⟩ := ih (linCall G st.get ns cache sid xs).1
+    simp only [linRunS, linCallS, linRun]
+    exact ⟨h1, by rw [h2]⟩
+
+/-- the same for the parabola method -/
+theorem c15_parabola_keeps_manifold_store (G : PGrid F) (ns : List Nat) (st : Store F)
+    (cache : Option (ParCache F)) (calls : List (Int × List F)) :
+    (parRunS G ns st cache calls).1 = st ∧
+      (parRunS G ns st cache calls).2 = parRun G st.get ns cache calls := by
+  induction calls generalizing cache with
+  | nil => exact ⟨rfl, rfl⟩
+  | cons c rest ih =>
+    obtain ⟨sid, xs⟩ := c
+    obtain ⟨h1, h2⟩ := ih (parCall G st.get ns cache sid xs).1
+    simp only [parRunS, parCallS, parRun]
+    exact ⟨h1, by rw [h2]⟩
+
+/-- consequence: with a store-backed manifold function a used parabola object answers like a fresh
+one on every history (the store-level form of `c15_parabola_cache_transparent`) -/
+theorem c15_parabola_store_history [LawfulBEq F] (G : PGrid F) (ns : List Nat) (st : Store F)
+    (hshared : ∀ sid (x : F), st.get sid [x] = st.get sid (List.replicate ns.length x))
+    (calls : List (Int × List F)) :
+    (parRunS G ns st none calls).2 = calls.map fun c => parSpec G st.get ns c.1 c.2 := by
+  rw [(c15_parabola_keeps_manifold_store G ns st none calls).2]
+  exact c15_parabola_cache_transparent G st.get ns hshared calls
+
+end store
+
 /-! ## The strict clauses of the property text, made visible -/
 
 section strict
